@@ -9,6 +9,8 @@ LEVEL = "exploration"
 
 def check(run):
     res = dp.decode_pass(run, want={"c01"})
+    samples = dp.first_events(res, "c01.ndjson", n=2, pred=lambda e: e["out"] == "ok")
+    samples += dp.first_events(res, "c01.ndjson", n=1, pred=lambda e: e["out"] == "err" and e["len"] == 14)
     rejected, n_events, results = dp.validate_parts(run, res, "trace/Trace_Decode", "c01.ndjson")
     st = res["stats"]
     per_clause = Counter()
@@ -22,8 +24,6 @@ def check(run):
                          "spec": "Trace_Decode.tla: outcome in {ok, err}; ok => length = LenFor(DF); "
                                  "both calls equal; Display/Debug return",
                          "reproduce": f"{res['exe']} probe {ev['hex']}"})
-    samples = dp.first_events(res, "c01.ndjson", n=2, pred=lambda e: e["out"] == "ok")
-    samples += dp.first_events(res, "c01.ndjson", n=1, pred=lambda e: e["out"] == "err" and e["len"] == 14)
     run.cov.update({
         "evaluations": n_events,
         "distinct_nontrivial": st["distinct_accepted"],
